@@ -82,6 +82,14 @@ mutual
     | _ => []
 end
 
+/-- subtree at a path; `none` if the path leaves the tree -/
+def treeAt : AttrTree → List Text → Option AttrTree
+  | t, [] => some t
+  | .node kids, k :: ks => match Kids.lookup k kids with
+    | some t => treeAt t ks
+    | none => none
+  | .leaf _, _ :: _ => none
+
 /-- `set` on the attributes of one set: afterwards the path exists and holds `v`; missing
     intermediate sets are created (last); everything else is unchanged. `none`: empty path, or the
     path runs through a value that is not a set. -/
